@@ -136,19 +136,26 @@ theorem map_int24ToSig_shift (pcm : List Int) (hp : ∀ x ∈ pcm, IsInt16 x) :
     simp only [List.map_cons]
     rw [int24ToSig_shift (hp x (List.mem_cons_self ..)), ih (fun y hy => hp y (List.mem_cons_of_mem _ hy))]
 
-theorem encode24_eq_encode16 (core : St → List Nat → Nat → List Nat → Pkt) (st : St) (d : Nat) (hd : d ≤ 16)
-    (pcm : List Int) (hp : ∀ x ∈ pcm, IsInt16 x) :
-    encode24 core st d (pcm.map (256 * ·)) = encode16 core st d pcm := by
-  unfold encode24 encode16
-  rw [map_int24ToRes_shift, map_int24ToSig_shift pcm hp, Nat.min_eq_right (by omega : d ≤ 24),
-    Nat.min_eq_right hd]
+theorem forall2_length {pcm : List Int} {fl : List Nat} (h : List.Forall₂ FloatOfInt16 pcm fl) :
+    fl.length = pcm.length := by
+  induction h with
+  | nil => rfl
+  | cons _ _ ih => simp only [List.length_cons, ih]
 
-theorem encodeFloat_eq_encode16 (core : St → List Nat → Nat → List Nat → Pkt) (st : St) (d : Nat) (hd : d ≤ 16)
+theorem encode24_eq_encode16 (core : St → CoreArgs → Pkt) (st : St) (d channels frameSize : Nat) (hd : d ≤ 16)
+    (pcm : List Int) (hp : ∀ x ∈ pcm, IsInt16 x) :
+    encode24 core st d channels frameSize (pcm.map (256 * ·)) = encode16 core st d channels frameSize pcm := by
+  unfold encode24 encode16
+  have hpt : ∀ x ∈ pcm.take (frameSize * channels), IsInt16 x := fun x hx => hp x (List.mem_of_mem_take hx)
+  rw [← List.map_take, map_int24ToRes_shift, map_int24ToSig_shift pcm hp, Nat.min_eq_right (by omega : d ≤ 24),
+    Nat.min_eq_right hd, List.length_map]
+
+theorem encodeFloat_eq_encode16 (core : St → CoreArgs → Pkt) (st : St) (d channels frameSize : Nat) (hd : d ≤ 16)
     (pcm : List Int) (hp : ∀ x ∈ pcm, IsInt16 x) (fl : List Nat) (hfl : List.Forall₂ FloatOfInt16 pcm fl) :
-    encodeFloat core st d fl = encode16 core st d pcm := by
+    encodeFloat core st d channels frameSize fl = encode16 core st d channels frameSize pcm := by
   unfold encodeFloat encode16
-  rw [map_float2Res_of_int16 hfl, map_float2Sig_of_int16 hp hfl,
-    Nat.min_eq_right (by omega : d ≤ 24), Nat.min_eq_right hd]
+  rw [List.map_take, List.map_take, map_float2Res_of_int16 hfl, map_float2Sig_of_int16 hp hfl,
+    Nat.min_eq_right (by omega : d ≤ 24), Nat.min_eq_right hd, forall2_length hfl]
 
 end entry
 
